@@ -69,6 +69,11 @@ def oracle(scn, trace):
         if "ABORTED" in inf.holds and (inf.first_true is not None or inf.decision == "A"):
             continue  # C13 / C16
         if not inf.classified:
+            if a.kind == "exc" and not getattr(a, "timed_out", False) and end["how"] == "return" and not inf.polls:
+                # the final attempt raised, nobody asked to abort, and yet call() came back with a value
+                out.append(V("R2", "call() returned a value although the last attempt raised", {"call": cid, "end": end, "entry": ent,
+                             "exception": a.obj, "etype": (a.end or {}).get("etype")}))
+                continue
             if a.kind == "res" and scn["cfg"].get("result_classifier") and end["how"] == "return" and not inf.polls \
                     and not any(e["ev"] == "RCLASSIFY" for e in inf.post):
                 # a value the configured result classifier calls a failure came back as call()'s result, unexamined
